@@ -87,6 +87,14 @@ Closed == /\ (Is("closed") \/ Is("cancelled"))
           /\ UNCHANGED <<recv, fetched, inSrc, srcClosed, lastF>>
           /\ Consume
 
+\* the source raised while child c pulled it: that very exception reaches c's consumer
+\* (it is not swallowed or replaced), c is finished, nobody else is disturbed
+Failed == /\ Is("failed")
+          /\ ~fin[E.c] /\ E.same
+          /\ fin' = [fin EXCEPT ![E.c] = TRUE]
+          /\ UNCHANGED <<recv, fetched, inSrc, srcClosed, lastF>>
+          /\ Consume
+
 \* the source is closed exactly when the last child is done: once, and not before
 SrcClose == /\ Is("srcclose")
             /\ srcClosed = 0 /\ \A c \in Child : fin[c]
@@ -97,7 +105,7 @@ SrcClose == /\ Is("srcclose")
 \* at rest (nobody is running): the source is closed iff every child is done
 Quiesce == /\ Is("quiesce")
            /\ inSrc = {}
-           /\ (\A c \in Child : fin[c]) <=> srcClosed = 1
+           /\ IF Cfg.closable THEN (\A c \in Child : fin[c]) <=> srcClosed = 1 ELSE srcClosed = 0
            /\ UNCHANGED <<recv, fetched, inSrc, srcClosed, fin, lastF>>
            /\ Consume
 
@@ -111,7 +119,7 @@ Census == /\ Is("census")
           /\ UNCHANGED <<recv, fetched, inSrc, srcClosed, fin, lastF>>
           /\ Consume
 
-Next == Recv \/ Fetch \/ Enter \/ Leave \/ EndC \/ Closed \/ SrcClose \/ Quiesce \/ Census
+Next == Recv \/ Fetch \/ Enter \/ Leave \/ EndC \/ Closed \/ Failed \/ SrcClose \/ Quiesce \/ Census
 Spec == Init /\ [][Next]_vars
 
 \* verdict: print, for every trace that was not consumed completely, how far it matched
